@@ -124,7 +124,7 @@ func corpusList() []corpusCase {
 	add("linedefined-function-statement", func() *Generated {
 		h := newHand(4)
 		var body []*Stmt
-		for _, kind := range []string{"localfunc", "funcstmt", "method", "anon"} {
+		for _, kind := range []string{"localfunc", "funcstmt", "method", "anon", "paren"} { // paren: fixed de349e1
 			f := &Func{ID: h.g.fn()}
 			cx := &fctx{fn: f, parent: h.fx, callerNLoc: -1}
 			cx.push()
@@ -138,6 +138,8 @@ func corpusList() []corpusCase {
 				f.Method = true
 				cx.declare(Binding{"self", nil})
 				ce = method(name("T"), "mm")
+			case "paren":
+				ce = call(name("pf"))
 			default:
 				ce = call(name("af"))
 			}
@@ -153,6 +155,9 @@ func corpusList() []corpusCase {
 				body = append(body, &Stmt{K: "funcstmt", Path: []string{"T", "gf"}, Fn: f})
 			case "method":
 				body = append(body, &Stmt{K: "funcstmt", Path: []string{"T"}, Method: "mm", Fn: f})
+			case "paren":
+				body = append(body, &Stmt{K: "local", Names: []string{"pf"}, Exprs: []*Expr{paren(&Expr{K: "func", Fn: f})}, Vals: []*int{nil}})
+				h.fx.declare(Binding{"pf", nil})
 			default:
 				body = append(body, &Stmt{K: "local", Names: []string{"af"}, Exprs: []*Expr{{K: "func", Fn: f}}, Vals: []*int{nil}})
 				h.fx.declare(Binding{"af", nil})
@@ -189,6 +194,25 @@ func corpusList() []corpusCase {
 			{K: "localfunc", Names: []string{"outer"}, Fn: outer},
 			{K: "call", Exprs: []*Expr{call(name("R"), num(1), call(name("pcall"), name("outer")))}},
 		}
+		return finish(h.g, h.main)
+	})
+	// fixed aa93f59: the iterator of a generic for saw the hidden variables as (*temporary)
+	add("generic-for-iterator-scope", func() *Generated {
+		h := newHand(8)
+		f := &Func{ID: h.g.fn(), Params: []Binding{{"s", ival(101)}, {"c", ival(0)}}}
+		cx := &fctx{fn: f, parent: h.fx, callerNLoc: -1}
+		cx.push()
+		cx.declare(f.Params[0])
+		cx.declare(f.Params[1])
+		site := &Expr{K: "itersite"}
+		p := h.g.pt("chain")
+		site.Pt = p
+		cx.callSite, cx.callPt, cx.callerFn = site, p, h.fx
+		f.Body = []*Stmt{h.q(cx), {K: "return", Exprs: []*Expr{num(1)}}}
+		h.fx.declare(Binding{"it", nil})
+		st := &Stmt{K: "genfor", Names: []string{"i", "j"}, IterSite: site, Exprs: []*Expr{name("it"), num(101), num(0)},
+			Body: []*Stmt{{K: "local", Names: []string{"z"}, Exprs: []*Expr{num(3)}, Vals: []*int{ival(3)}}, {K: "break"}}}
+		h.main.Body = []*Stmt{{K: "localfunc", Names: []string{"it"}, Fn: f}, h.local(h.fx, "q", 7), st, h.q(h.fx)}
 		return finish(h.g, h.main)
 	})
 	// fixed 5239a70: a level that falls on a frame lost to a tail call addressed the bottom frame
